@@ -49,6 +49,11 @@ func (p *FloatingIPPlugin) Bind(args *schedulerapi.ExtenderBindingArgs) error {
 		// see https://github.com/kubernetes/kubernetes/pull/60332
 		return fmt.Errorf("pod which doesn't want floatingip have been sent to plugin")
 	}
+	if args.PodUID != "" && pod.UID != "" && args.PodUID != pod.UID {
+		// the pod cache still holds a previous pod with the same name, binding now would record the wrong pod uid
+		return fmt.Errorf("pod %s in cache has uid %s instead of %s, waiting for cache sync",
+			util.Join(args.PodName, args.PodNamespace), string(pod.UID), string(args.PodUID))
+	}
 	defer p.lockPod(pod.Name, pod.Namespace)()
 	keyObj, err := util.FormatKey(pod)
 	if err != nil {
